@@ -1,5 +1,6 @@
 import Pike.Lemmas.LRU
 import Pike.Lemmas.LRURefine
+import Pike.Lemmas.LRUSurvive
 import Pike.Model.Sys
 import Pike.Facts
 /-
@@ -19,6 +20,28 @@ count is ≥ 1, the per-zone limit is ≥ 1 (0 would mean "unlimited"), and zone
 theorem sizes_ok (S : Int) (h : 1 ≤ S) :
     1 ≤ (Facts.dispatcherSizes S).1 ∧ 1 ≤ (Facts.dispatcherSizes S).2
     ∧ (Facts.dispatcherSizes S).1 * (Facts.dispatcherSizes S).2 ≤ S := by
+  unfold Facts.dispatcherSizes
+  simp only []
+  by_cases h0 : S ≤ 0
+  · omega
+  · rw [if_neg h0]
+    by_cases h1 : S < 1024
+    · rw [if_pos h1]
+      by_cases h2 : S < 8
+      · rw [if_pos h2]
+        have : S / S = 1 := Int.ediv_self (by omega)
+        rw [this]; omega
+      · rw [if_neg h2]; omega
+    · rw [if_neg h1]
+      have : ¬ S < 128 := by omega
+      rw [if_neg this]; omega
+
+/-- … and the limit is not smaller than the configuration asks for either: the shards together hold more than
+S − zones keys (each shard's limit is the configured size divided by the number of shards, rounded down — not a
+fraction of it).  A shard limit that is too small evicts entries whose fetch is still in flight long before the cache is
+full, which is what C01's proviso "unless the entry is evicted during the fetch" must not be stretched to cover. -/
+theorem capacity_not_wasted (S : Int) (h : 1 ≤ S) :
+    S < (Facts.dispatcherSizes S).1 * ((Facts.dispatcherSizes S).2 + 1) := by
   unfold Facts.dispatcherSizes
   simp only []
   by_cases h0 : S ≤ 0
@@ -59,6 +82,37 @@ theorem resident_le_size (S : Int) (hS : 1 ≤ S) (hash : Str → Nat) (ops : Li
       ≤ (((Facts.dispatcherSizes S).1.toNat * (Facts.dispatcherSizes S).2.toNat : Nat) : Int) :=
     Int.ofNat_le.mpr this
   omega
+
+/-- The other half of "least recently used": a key that has just been used is NOT the one dropped.  After a
+lookup of `k` (whatever happened before), any sequence of lookups and purges of OTHER keys that is shorter than the
+per-shard limit leaves `k` resident with the very entry that lookup returned — however the keys hash.  (This is also
+the quantitative content of C01's proviso "as long as the key's entry is not evicted during the fetch": an entry
+whose fetch is in flight is safe from eviction for the next `cap - 1` other requests of its shard.) -/
+theorem recently_used_survives (hash : Str → Nat) (S : Int) (hist : List Op) (k : Str) (ops : List Op)
+    (hops : ∀ op ∈ ops, op.mentions k = false) :
+    let d0 := run hash (mk S) hist
+    let i := hash k % d0.zones
+    let r := lookup d0 i k
+    ops.length < d0.cap →
+      ∃ it, find ((run hash r.1 ops).shards i) k = some it ∧ it.eid = r.2.1 := by
+  intro d0 i r hlen
+  have hinv0 : Inv d0 := inv_run hash (inv_init _ _) hist
+  have hinv1 : Inv r.1 := inv_lookup hinv0 i k
+  have hpar := zones_lookup d0 i k
+  have h0 : rk (r.1.shards (hash k % r.1.zones)) k = some (0, r.2.1) := by
+    show rk ((lookup d0 i k).1.shards (hash k % (lookup d0 i k).1.zones)) k = _
+    rw [hpar.1]; exact rk_after_lookup d0 i k
+  obtain ⟨q, _, hr⟩ := run_keeps hash hinv1 k ops hops h0 (Or.inr (by
+    show 0 + ops.length < (lookup d0 i k).1.cap
+    rw [hpar.2]; omega))
+  obtain ⟨it, hf, he, _⟩ := rk_find hr
+  refine ⟨it, ?_, he⟩
+  have : hash k % r.1.zones = i := by show hash k % (lookup d0 i k).1.zones = _; rw [hpar.1]
+  rw [this] at hf; exact hf
+
+/-- non-vacuity: a cache of 2048 entries (16 per shard) — fifteen lookups of other keys that all land in the shard of
+`k` leave `k`'s entry where it was -/
+example : (Facts.dispatcherSizes 2048).2 = 16 := by decide
 
 /-- When a lookup has to make room, the key it drops is the least recently used key of that
 shard: its last access precedes the last access of every key that stays. -/
